@@ -52,6 +52,58 @@ def _const_table(crate, t):
     return None
 
 
+def match_find(fn, tb, rb, rt, conds):
+    """idiom: TABLE.iter().find(|row| row.key OP k) -> Some(row) => row.col, None => unreachable!()"""
+    crate = fn.crate
+    FIND = ("call", V("f", lambda x: isinstance(x, str) and x.endswith("Iterator::find")), (V("src"), V("clo")))
+    m = match(("field", ("deref", ("field", ("variant", FIND, "Some"), 0)), V("vc")), rt)
+    if m is None:
+        return None
+    src, rev = _strip_iter(m["src"])
+    if src[0] != "slice":
+        return None
+    tab = _const_table(crate, src[1])
+    clo = m["clo"]
+    if tab is None or clo[0] != "agg" or not clo[1].startswith("closure:"):
+        return None
+    g = crate.fns.get(clo[1][len("closure:"):])
+    if g is None:
+        return None
+    body = terms.TermBuilder(g).return_term()
+    # closure(&mut self, item: &&row): row field vs a captured reference to the argument
+    row = ("deref", ("deref", ("param", 2)))
+    mb = match(("op", V("op"), ("field", row, V("kc")), ("deref", ("field", ("deref", ("param", 1)), V("cap")))), body)
+    flip = False
+    if mb is None:
+        mb = match(("op", V("op"), ("deref", ("field", ("deref", ("param", 1)), V("cap"))), ("field", row, V("kc"))), body)
+        flip = True
+    if mb is None or not isinstance(mb["cap"], int) or mb["cap"] >= len(clo[2]):
+        return None
+    cap = clo[2][mb["cap"]]
+    while cap[0] == "ref":
+        cap = cap[1]
+    if cap[0] != "param":
+        return None
+    op = mb["op"]
+    if flip:
+        op = {"Lt": "Gt", "Le": "Ge", "Gt": "Lt", "Ge": "Le"}.get(op, op)
+    guard = None
+    for c, truth in conds:
+        for pat, flipg in ((("op", V("op"), ("param", V("p")), ("const", V("c"))), False),
+                           (("op", V("op"), ("const", V("c")), ("param", V("p"))), True)):
+            e = match(pat, c)
+            if e is not None and truth:
+                o = e["op"]
+                if flipg:
+                    o = {"Lt": "Gt", "Le": "Ge", "Gt": "Lt", "Ge": "Le"}.get(o, o)
+                if o in ("Le", "Lt"):
+                    guard = {"param": e["p"], "op": o, "bound": e["c"]}
+    rows = tab[1]
+    return {"fn": fn.key, "guard": guard, "rev": rev, "ret": rt, "cond": body, "return_block": rb, "kind": "table",
+            "table": tab[0], "key_col": mb["kc"], "op": op, "param": cap[1], "val_col": m["vc"],
+            "keys": [r[mb["kc"]] for r in rows], "vals": [r[m["vc"]] for r in rows], "rows": len(rows), "idiom": "find"}
+
+
 def match_scan(fn):
     """returns dict describing the scan or None"""
     crate = fn.crate
@@ -61,6 +113,9 @@ def match_scan(fn):
         return None
     rb, rt = rts[0]
     conds = tb.path_conditions(rb)
+    fm = match_find(fn, tb, rb, rt, conds)
+    if fm is not None:
+        return fm
     # the entry guard: comparison of a parameter with a constant, on the path to the return
     guard = None
     scan = None
